@@ -319,4 +319,111 @@ theorem C13_package_total (o : Opts) (a : Archive) (h : validPkg o a = true) :
         exact hr
       exact C13_views_total (parsOf o a) hg
 
+/-! ## comments -/
+
+theorem attrReq_ok_qn (x : Xml) (p n v : Str) (h : x.attrReq p n = .ok v) : ∃ q, x.qn p n = .ok q := by
+  unfold Xml.attrReq Xml.attrQ at h
+  cases hq : x.qn p n with
+  | error e => simp [hq, bind, Except.bind] at h
+  | ok q => exact ⟨q, rfl⟩
+
+theorem qn_other (x : Xml) (p n n' : Str) (h : ∃ q, x.qn p n = .ok q) : ∃ q', x.qn p n' = .ok q' := by
+  obtain ⟨q, hq⟩ := h
+  unfold Xml.qn at hq ⊢
+  split at hq
+  · rename_i e he; exact ⟨_, rfl⟩
+  · simp at hq
+
+theorem suppress_attrReq (x : Xml) (p n dflt : Str) (h : ∃ q, x.qn p n = .ok q) :
+    ∃ d, suppress .keyError dflt (x.attrReq p n) = .ok d := by
+  obtain ⟨q, hq⟩ := h
+  unfold Xml.attrReq Xml.attrQ
+  simp only [hq, ok_bind, pure, Except.pure]
+  cases x.attrGet q with
+  | none => exact ⟨dflt, by simp [suppress]⟩
+  | some v => exact ⟨v, rfl⟩
+
+theorem oneComment_total (o : Opts) (num : Dict Str (List NumAttr)) (rels : Dict Str Str) (ranges : Dict Str (Nat × Nat))
+    (allRuns : List Str) (c : Xml) (hc : commentOK c = true) : ∃ r, oneComment o num rels ranges allRuns c = .ok r := by
+  unfold commentOK at hc
+  simp only [Bool.and_eq_true] at hc
+  obtain ⟨⟨hid, hau⟩, hv⟩ := hc
+  obtain ⟨id, hid⟩ := hasId_ok c hid
+  cases hauth : c.attrReq (lit "w") (lit "author") with
+  | error e => simp [hauth, Except.isOk] at hau
+  | ok author =>
+    obtain ⟨dc, hdc, t⟩ := C13_part_total { html := o.html, dup := o.dup, rels := rels } num c false hv
+    obtain ⟨ts, hts⟩ := getParStrings_total dc.root t.inv2.inv.shape (fun p hp => parRunStrings_ok p (t.sty.tree p hp))
+    obtain ⟨text, htext⟩ := flattenText_total ts (getParStrings_spec dc.root ts t.inv2.inv.shape hts).1
+    unfold oneComment
+    simp only [hid, hauth, ok_bind]
+    obtain ⟨date, hd⟩ := suppress_attrReq c (lit "w") (lit "date") [] (qn_other c (lit "w") (lit "id") (lit "date") (attrReq_ok_qn c _ _ id hid))
+    simp only [hd, ok_bind, hdc, hts, htext]
+    cases ranges.get? id with
+    | none => exact ⟨none, rfl⟩
+    | some be => exact ⟨some _, rfl⟩
+
+theorem commentsLoop_total (o : Opts) (num : Dict Str (List NumAttr)) (rels : Dict Str Str) (ranges : Dict Str (Nat × Nat))
+    (allRuns : List Str) : ∀ (cs : List Xml), cs.all commentOK = true → ∃ r, commentsLoop o num rels ranges allRuns cs = .ok r
+  | [], _ => ⟨some [], rfl⟩
+  | c :: cs, h => by
+    simp only [List.all_cons, Bool.and_eq_true] at h
+    obtain ⟨r, hr⟩ := oneComment_total o num rels ranges allRuns c h.1
+    obtain ⟨rest, hrest⟩ := commentsLoop_total o num rels ranges allRuns cs h.2
+    cases r with
+    | none => exact ⟨none, by simp only [commentsLoop, hr, ok_bind]; rfl⟩
+    | some x => exact ⟨rest.map (x :: ·), by simp only [commentsLoop, hr, ok_bind, hrest]; rfl⟩
+
+/-- **C13, comments**: for a valid package whose comment entries are valid, `comments` returns -/
+theorem C13_comments_total (o : Opts) (a : Archive) (h : validPkg o a = true) (hc : commentsOK a = true) :
+    ∃ cs, comments o a = .ok cs := by
+  unfold validPkg at h
+  unfold commentsOK at hc
+  cases hf : a.files with
+  | error e => simp [hf] at h
+  | ok files =>
+    cases hn : numId2Attrs a with
+    | error e => simp [hf, hn] at h
+    | ok num =>
+      simp only [hf, hn] at h
+      simp only [hf, Bool.and_eq_true, Bool.not_eq_true', List.isEmpty_eq_false_iff] at hc
+      unfold comments
+      simp only [hf, ok_bind]
+      cases hdoc : filesOfType files [lit "officeDocument"] with
+      | nil => exact absurd hdoc hc.1
+      | cons doc rest =>
+        simp only
+        have hmain := List.all_eq_true.1 h "officeDocument" (by decide)
+        rw [hdoc] at hmain
+        simp only [List.all_cons, Bool.and_eq_true] at hmain
+        obtain ⟨dc, hdc, wd, nd⟩ := partCollector_good o a files num doc hmain.1
+        simp only [hn, hdc, ok_bind]
+        cases hcm : filesOfType files [lit "comments"] with
+        | nil =>
+          show ∃ cs, (if (dc.ranges.length != ([] : List Xml).length) = true then pure [] else
+            if ([] : List Xml).isEmpty = true then pure [] else _) = Except.ok cs
+          split
+          · exact ⟨[], rfl⟩
+          · exact ⟨[], rfl⟩
+        | cons cf crest =>
+          have hcc := hc.2
+          rw [hcm] at hcc
+          simp only at hcc
+          cases hroot : a.readXml cf.path with
+          | error e => simp [hroot] at hcc
+          | ok root =>
+            cases hrels : partRels a files cf with
+            | error e => simp [hroot, hrels] at hcc
+            | ok rels =>
+              simp only [hroot, hrels] at hcc
+              simp only [hroot, ok_bind, pure, Except.pure]
+              split
+              · exact ⟨[], rfl⟩
+              · split
+                · exact ⟨[], rfl⟩
+                · obtain ⟨runs, hruns⟩ := getParStrings_total dc.root wd nd
+                  obtain ⟨leaves, hleaves⟩ := allLeaves_total runs (getParStrings_spec dc.root runs wd hruns).1
+                  obtain ⟨r, hr⟩ := commentsLoop_total o num rels dc.ranges leaves _ hcc
+                  exact ⟨r.getD [], by simp only [hruns, ok_bind, hleaves, hrels, hn, hr]⟩
+
 end D2P
